@@ -315,6 +315,54 @@ def coq_sample_check(pid, lines, rundir):
     return ok, len(items), out[-2000:]
 
 
+def _norm_go(src):
+    """comment- and whitespace-insensitive text of a Go file (approximation by regexps: good enough for a
+       fingerprint whose only use is to decide how many cases to run)"""
+    src = re.sub(r"/\*.*?\*/", " ", src, flags=re.S)
+    src = re.sub(r"(?m)^\s*//.*$", "", src)
+    src = re.sub(r"(?m)\s+//[^\"`\n]*$", "", src)
+    return re.sub(r"\s+", " ", src).strip()
+
+
+def prop_source_files(pid, P):
+    """the slog-agent sources a property is anchored in (properties.jsonl) or models (lib/props.d 'modelled')"""
+    files = []
+    try:
+        for l in open(os.path.join(VERIF, "properties.jsonl")):
+            pr = json.loads(l)
+            if pr.get("id") == pid:
+                files += pr.get("anchors", {}).get("files", [])
+    except (OSError, ValueError):
+        pass
+    for m in P.get("modelled", []):
+        files += re.findall(r"[\w./-]+\.go", m)
+    seen, out = set(), []
+    for f in files:
+        f = f.lstrip("./")
+        if f not in seen and os.path.isfile(os.path.join(REPO, f)):
+            seen.add(f)
+            out.append(f)
+    return sorted(out)
+
+
+def source_fingerprint(pid, P):
+    fp = {}
+    for f in prop_source_files(pid, P):
+        try:
+            fp[f] = hashlib.sha256(_norm_go(open(os.path.join(REPO, f), errors="replace").read()).encode()).hexdigest()[:16]
+        except OSError:
+            pass
+    return fp
+
+
+def fingerprint_baseline(pid):
+    p = os.path.join(VERIF, "lib", "fingerprints", pid + ".json")
+    try:
+        return json.load(open(p))
+    except (OSError, ValueError):
+        return None
+
+
 def load_known(pid):
     p = os.path.join(VERIF, "KNOWN_FINDINGS.json")
     if not os.path.exists(p):
@@ -439,41 +487,57 @@ def main(argv):
         problems.append("ocaml: extraction/driver build failed")
         notes.append(out[-2000:])
     corpus = os.path.join(VERIF, "corpus", pid)
-    cmd = [hbin, pid, "gen", rundir, "-tier", tier, "-seed", str(seed)]
-    if os.path.isdir(corpus):
-        cmd += ["-corpus", corpus]
-    for f in ("cases.txt", "fails.txt", "stats.json"):
-        try:
-            os.remove(os.path.join(rundir, f))
-        except FileNotFoundError:
-            pass
-    rc, gout = sh(cmd, env=GOENV, timeout=P.get("gen_timeout", 3000), cwd=rundir)
-    if rc != 0 or not os.path.exists(os.path.join(rundir, "stats.json")):
-        print(gout[-3000:])
+
+    def run_round(outdir, seed_, with_corpus):
+        """one generator run of the implementation + the extracted model on the same cases.
+           Returns (error text or None, cases, mismatches [(index into cases, model output)], fails, stats, classes)"""
+        os.makedirs(outdir, exist_ok=True)
+        cmd = [hbin, pid, "gen", outdir, "-tier", tier, "-seed", str(seed_)]
+        if with_corpus and os.path.isdir(corpus):
+            cmd += ["-corpus", corpus]
+        for f in ("cases.txt", "fails.txt", "stats.json"):
+            try:
+                os.remove(os.path.join(outdir, f))
+            except FileNotFoundError:
+                pass
+        rc_, gout = sh(cmd, env=GOENV, timeout=P.get("gen_timeout", 3000), cwd=outdir)
+        if rc_ != 0 or not os.path.exists(os.path.join(outdir, "stats.json")):
+            return "exit %s; output tail:\n%s" % (rc_, gout[-6000:]), [], [], [], {}, {}
+        stats_ = json.load(open(os.path.join(outdir, "stats.json")))
+        cases_ = open(os.path.join(outdir, "cases.txt"), errors="replace").read().splitlines()
+        mism_, classes_ = [], {}
+        if os.path.exists(os.path.join(BUILD, "ocaml", pid, "driver")):
+            rc_, mout = sh([os.path.join(BUILD, "ocaml", pid, "driver"), "check", os.path.join(outdir, "cases.txt")], timeout=3000,
+                           stack_mb=P.get("driver_stack_mb"), extra_env=P.get("driver_env"))
+            summ = None
+            for l in mout.splitlines():
+                f = l.split("\t")
+                if f[0] == "MISMATCH":
+                    mism_.append((int(f[1]) - 1, f[2] if len(f) > 2 else ""))
+                elif f[0] == "CLASS":
+                    classes_[f[1]] = int(f[2])
+                elif f[0] == "SUMMARY":
+                    summ = l
+            if summ is None:
+                problems.append("model driver crashed: " + mout[-500:])
+        fails_ = []
+        fp_ = os.path.join(outdir, "fails.txt")
+        if os.path.exists(fp_):
+            for l in open(fp_, errors="replace").read().splitlines():
+                f = l.split("\t")
+                if len(f) >= 3:
+                    fails_.append({"sig": f[0], "desc": f[1], "case": f[2]})
+        return None, cases_, mism_, fails_, stats_, classes_
+
+    err, cases, mism, fails, stats, classes = run_round(rundir, seed, True)
+    if err is not None:
+        print(err[-3000:])
         rep = os.path.join(repdir, "%s_harness_crash.txt" % pid)
-        open(rep, "w").write("the implementation harness for %s did not complete (exit %s); output tail:\n%s" % (pid, rc, gout[-6000:]))
+        open(rep, "w").write("the implementation harness for %s did not complete (%s)" % (pid, err))
         print("VIOLATION property=%s replay=%s no-failing-input-found" % (pid, rep))
         return 1
-    stats = json.load(open(os.path.join(rundir, "stats.json")))
-    cases = open(os.path.join(rundir, "cases.txt"), errors="replace").read().splitlines()
 
     # ---------- (3) model ----------
-    mism = []
-    classes = {}
-    if os.path.exists(os.path.join(BUILD, "ocaml", pid, "driver")):
-        rc, mout = sh([os.path.join(BUILD, "ocaml", pid, "driver"), "check", os.path.join(rundir, "cases.txt")], timeout=3000,
-                      stack_mb=P.get("driver_stack_mb"), extra_env=P.get("driver_env"))
-        summ = None
-        for l in mout.splitlines():
-            f = l.split("\t")
-            if f[0] == "MISMATCH":
-                mism.append((int(f[1]), f[2] if len(f) > 2 else ""))
-            elif f[0] == "CLASS":
-                classes[f[1]] = int(f[2])
-            elif f[0] == "SUMMARY":
-                summ = l
-        if summ is None:
-            problems.append("model driver crashed: " + mout[-500:])
     if mism:
         problems.append("correspondence %s: implementation and model differ on %d of %d cases" % (pid, len(mism), len(cases)))
     # kernel-evaluated sample
@@ -492,27 +556,52 @@ def main(argv):
         ns = 0
 
     # ---------- (4) oracle failures and decision ----------
-    fails = []
-    fp = os.path.join(rundir, "fails.txt")
-    if os.path.exists(fp):
-        for l in open(fp, errors="replace").read().splitlines():
-            f = l.split("\t")
-            if len(f) >= 3:
-                fails.append({"sig": f[0], "desc": f[1], "case": f[2]})
     known = load_known(pid)
     known_hits = {}
     new_fails = []
-    for f in fails:
-        hit = None
-        for k in known:
-            if k.get("status") == "known" and re.fullmatch(k["signature"], f["sig"]):
-                hit = k
+
+    def classify(fs):
+        for f in fs:
+            hit = None
+            for k in known:
+                if k.get("status") == "known" and re.fullmatch(k["signature"], f["sig"]):
+                    hit = k
+                    break
+            if hit:
+                known_hits.setdefault(hit["id"], [hit, 0, f])
+                known_hits[hit["id"]][1] += 1
+            else:
+                new_fails.append(f)
+
+    classify(fails)
+
+    # ---------- change amplification (DESIGN.md 3.3): the sources this property is anchored in differ from the
+    # fingerprint recorded at the last green state of the unchanged tree -> more generator rounds (other seeds)
+    # in the quick tier. A changed fingerprint alone is never a violation; it only buys more cases.
+    fp_now = source_fingerprint(pid, P)
+    fp_base = fingerprint_baseline(pid)
+    changed_files = sorted(f for f in set(fp_now) | set(fp_base or {}) if (fp_base or {}).get(f) != fp_now.get(f)) if fp_base is not None else []
+    amp_rounds = 0
+    # (also when the correspondence already disagrees but no failing input has been found yet: the extra rounds are
+    # the search for a concrete input on which the property itself fails)
+    if tier == "quick" and (changed_files or mism) and not new_fails and os.environ.get("VERIF_NO_AMPLIFY") != "1":
+        for k_ in range(1, int(P.get("amplify_rounds", 2)) + 1):
+            err, c2, m2, f2, st2, cl2 = run_round(os.path.join(rundir, "amp%d" % k_), seed + 1000 * k_, False)
+            if err is not None:
+                notes.append("amplification round %d did not complete: %s" % (k_, err[-300:]))
                 break
-        if hit:
-            known_hits.setdefault(hit["id"], [hit, 0, f])
-            known_hits[hit["id"]][1] += 1
-        else:
-            new_fails.append(f)
+            amp_rounds += 1
+            base_ = len(cases)
+            cases += c2
+            mism += [(i + base_, mo) for (i, mo) in m2]
+            fails += f2
+            for kk, vv in cl2.items():
+                classes[kk] = classes.get(kk, 0) + vv
+            classify(f2)
+            if m2:
+                problems.append("correspondence %s: implementation and model differ on %d of %d cases (amplification round %d, seed %d)" % (pid, len(m2), len(c2), k_, seed + 1000 * k_))
+            if new_fails:
+                break
     for kid, (k, n, f) in sorted(known_hits.items()):
         print("KNOWN-FINDING: property=%s %s (%d cases this run, e.g. %s)" % (pid, k["what"], n, f["desc"][:160]))
 
@@ -538,7 +627,7 @@ def main(argv):
                 fh.write("# no longer checks: %s\n" % p_)
             fh.write("# theorems: coq/Props/%s.v (%s)\n" % (pid, ", ".join(names)))
             for (ln, mo) in mism[:20]:
-                fh.write("# model output: %s\n%s\n" % (mo, cases[ln - 1]))
+                fh.write("# model output: %s\n%s\n" % (mo, cases[ln]))
             if not coq_ok:
                 fh.write("# coq log tail:\n" + "\n".join("# " + l for l in coq_log.splitlines()[-30:]) + "\n")
             for n_ in notes:
@@ -571,6 +660,8 @@ def main(argv):
                 "impl_oracle_failures": len(fails), "known_finding_hits": {k: v[1] for k, v in known_hits.items()},
                 "input_distribution": stats.get("distribution", {}),
                 "model_output_classes": classes,
+                "change_amplification": {"fingerprint_files": len(fp_now), "baseline_recorded": fp_base is not None,
+                                         "changed_files": changed_files, "extra_rounds": amp_rounds},
             },
             "modelled_not_verified": P.get("modelled", []),
         },
@@ -584,5 +675,23 @@ def main(argv):
     return 1 if violations else 0
 
 
+def update_fingerprints():
+    """bin/fingerprint-update: record the fingerprints of the sources each property is anchored in, for the
+       committed state of REPO (refuses a dirty tree). Run by hand (bin/mkmanifest does it) - never by a check."""
+    rc, out = sh(["git", "-C", REPO, "status", "--porcelain"])
+    if out.strip():
+        print("fingerprints NOT updated: %s has uncommitted changes" % REPO)
+        return 1
+    props = load_props()
+    d = os.path.join(VERIF, "lib", "fingerprints")
+    os.makedirs(d, exist_ok=True)
+    for pid, P in sorted(props.PROPS.items()):
+        json.dump(source_fingerprint(pid, P), open(os.path.join(d, pid + ".json"), "w"), indent=1, sort_keys=True)
+    print("fingerprints of %d properties recorded for %s" % (len(props.PROPS), REPO))
+    return 0
+
+
 if __name__ == "__main__":
+    if len(sys.argv) > 1 and sys.argv[1] == "fingerprints":
+        sys.exit(update_fingerprints())
     sys.exit(main(sys.argv))
